@@ -647,3 +647,32 @@ def column_default():
         if _lex_literal(tail, "'", False) is None:
             return f"Column('c', 'JSON', default={v!r}) renders {sql!r}: the default is not one literal"
     return None
+
+
+def identifier_quote_char():
+    from . import Table
+    t = Table('we"ird')
+    sql = str(pk.Query.from_(t).select(t.a))
+    if '"we""ird"' not in sql:
+        return f"Table('we\"ird') renders {sql!r}: the embedded quote character is not doubled, the identifier ends early"
+    return None
+
+
+def identifier_site(func_short, cls_short, key):
+    from . import Q, Table, fn
+    t = Table("t")
+    if "_with" in key or "AliasedQuery" in func_short or key == "self.name":
+        q = pk.Query.with_(pk.Query.from_(t).select(t.a), "my cte").from_(Q.AliasedQuery("my cte")).select("*")
+        sql = str(q)
+        if 'WITH my cte AS' in sql or 'FROM my cte' in sql:
+            return f"CTE named 'my cte' renders {sql!r}: the name is emitted without identifier quotes"
+    if key == "{":
+        from . import MySQLQuery
+        try:
+            q = MySQLQuery.into(t).insert(1).as_("new{row}").on_conflict().do_update("a")
+            sql = str(q)
+            if "`new{row}`.`a`" not in sql:
+                return f"alias 'new{{row}}' renders {sql!r}"
+        except Exception as e:
+            return f"alias 'new{{row}}' raises {type(e).__name__}: {e}"
+    return None
